@@ -3,6 +3,7 @@
 //! (`F<TAB>property<TAB>json`).
 mod common;
 mod strings;
+mod suite_axes;
 mod suite_entity;
 mod suite_tree;
 mod tree;
@@ -24,6 +25,7 @@ fn main() {
     match suite {
         "entity" => suite_entity::run(seed, count, tier, &mut sink),
         "tree" => suite_tree::run(seed, count, tier, &mut sink),
+        "axes" => suite_axes::run(seed, count, tier, &mut sink),
         _ => {
             eprintln!("unknown suite {}", suite);
             std::process::exit(2);
